@@ -295,7 +295,7 @@ func init() {
 			judge(c03Case{Sc: sc, Mode: mode})
 			return r.Finish()
 		}
-		n, nh := 600, 300
+		n, nh := 1500, 600
 		if thorough() {
 			n, nh = 8000, 3000
 		}
